@@ -619,7 +619,7 @@ def run_campaign(seed: int, runs: int) -> dict:
                 found.append(json.loads(line[len('C03-FINDING ') :]))
             elif line.startswith('C03-STATS '):
                 stats = json.loads(line[len('C03-STATS ') :])
-        done = f'Done {runs} runs' in text or 'DONE' in text
+        done = f'Done {runs} runs' in text or 'DONE' in text or 'C03-ABORT' in text
         if 'libFuzzer: timeout' in text:
             # one input kept the decoder busy for 25 s: libFuzzer saved it and stopped
             for name in sorted(os.listdir(work)):
@@ -658,11 +658,15 @@ def check_campaign(case: dict) -> dict:
             fresh.append(f)
             continue
         # every saved finding must replay through the bytes engine with the same root cause
+        wedged = _WEDGED[0]
+        _WEDGED[0] = 0  # the replay must really run, whatever this shard skipped before
         try:
             check_bytes(dict(f['case']))
             replayed = None
         except Violation as v:
             replayed = v.signature
+        finally:
+            _WEDGED[0] = wedged
         if sig.startswith('no-termination') and replayed and replayed.split(':')[0] in ('cost', 'no-termination'):
             # the fuzz target has only its CPU watchdog; the check names the same defect by its work bound
             sig = f['signature'] = replayed
@@ -682,8 +686,18 @@ def check_campaign(case: dict) -> dict:
     return {'nontrivial': stats.get('ok', 0) > 0, 'classes': classes, 'sample': {'seed': case['seed'], 'runs': case['runs'], 'stats': {k: stats[k] for k in ('execs', 'ok', 'notify', 'violation', 'seconds') if k in stats}}}
 
 
+def _shard() -> int:
+    argv = sys.argv
+    try:
+        return int(argv[argv.index('--shard') + 1].split('/')[0])
+    except (ValueError, IndexError):
+        return 0
+
+
 def campaign_cases(runs: int):
-    return lambda: st.integers(0, 7).map(lambda i: {'seed': 1000 + i, 'runs': runs})
+    # libFuzzer seeds differ by shard (Hypothesis starts every shard with the smallest example); VERIF_SEED moves them all
+    base = 1000 * int(os.environ.get('VERIF_SEED', '1') or '1') + 10 * _shard()
+    return lambda: st.integers(0, 7).map(lambda i: {'seed': base + i, 'runs': runs})
 
 
 def _tier() -> str:
